@@ -650,6 +650,7 @@ def run(ctx):
              'exact ties and the float just below a sample x 6 nsigma, per backend; non-trivial = more than one sample or a tie. dataflow: test_stat x ntoys x POI with stubbed '
              'fit/sampler/statistic. moments: every main and auxiliary column of 3 models per backend. counting: one-bin models vs certified Poisson tails. distinct by full input',
         corpus_cases=ncorpus, stats=stats, model_disagreements=ndis,
+        level_note='proof (partial): tail-fraction arithmetic, sample layout and hypothesis dataflow are proved; the distribution of the samplers is validated statistically only',
         validated_not_proved=['the random samplers of every backend (moments within 6 sigma at fixed seeds; toy CLs+b/CLb within 6 sigma binomial of certified exact tails)'],
         moments={b: [r for r in mom[b] if abs(r['z_mean']) > 3 or abs(r['z_var']) > 3] or 'all %d columns within 3 sigma' % len(mom[b]) for b in mom},
         counting=[dict(cfg=r['cfg'], ntoys=r['ntoys'], clsb=r['clsb'], exact_sb=float(r['p_sb']), clb=r['clb'], exact_b=float(r['p_b']), distinct_datasets=r['distinct_datasets']) for r in cres],
